@@ -203,7 +203,7 @@ func runC11(seed uint64, n int, outDir string, replay string) {
 	o := h.NewOut(outDir, "c11")
 	r := h.NewRng(seed)
 	ans := func(s string) { o.Ans("impl", "%s", s) }
-	_, allocs := cwAccounts()
+	_, allocs := cwAllAllocs()
 	for c := 0; c < n; c++ {
 		rc := r.Fork()
 		o.NewCase()
